@@ -8,7 +8,7 @@ from sa.emit import Elem, walk_elems
 from sa.flow import show, sig, subterms
 from sa.model import AnalysisError, norm, parent, walk_no_nested
 
-from .common import alts, callers_of, commands, is_call, is_plain_iter, prov, unshipped_modules
+from .common import include_rules, alts, callers_of, commands, is_call, is_plain_iter, prov, unshipped_modules
 from .xmlcommon import documents
 
 HIST = "ascmhl.history.MHLHistory"
@@ -234,6 +234,9 @@ def run(report, p):
     else:
         r7.check(False, ad, ad.node, "the child's root hash is not copied one history level up", construct="copy-up missing")
 
+    # ---- rules shared with other properties (same mechanism, same rule, reported under every property it can break)
+    include_rules(report, p, 'c05', ['R5.7'], 'every nested ascmhl folder must be discovered as a child history')
+    include_rules(report, p, 'c02', ['R2.3'], 'records are keyed by the routed history-relative path')
     report.not_decided += ["exactly-one-history-per-file on concrete layouts", "equality of reference digests with the referenced bytes at run time"]
 
 
